@@ -50,3 +50,15 @@ package redis
 //@ ensures [C09] err != nil ==> called(TrieDB.SubscribeLocked#1) == 0
 //@ ensures [C09] err == nil ==> called(TrieDB.SubscribeLocked#1) == 1
 
+
+// UnsubscribeAll (the session ended): exactly this client's hash is deleted, and the in-memory index forgets the client
+// only after redis took the command.
+//@ func (*sub).UnsubscribeAll
+//@ props C09
+//@ requires [C09] s != nil && s.pool != nil && s.memStore != nil && s.mu != nil
+//@ modifies heap, ghostall(redigo.Conn.$cmds), ghostall(redigo.Conn.$lastCmd), ghostall(redigo.Conn.$flushes), ghostall(redigo.Conn.$lastInt)
+//@ abstract call TrieDB).UnsubscribeAllLocked pure
+//@ call Conn.Do#1 assert [C09] commandName == "del" && len(args) == 1 && args[0].(type string) && args[0].(string) == concat("sub:", clientID)
+//@ call TrieDB.UnsubscribeAllLocked#1 assert [C09] $arg1 == clientID && called(Conn.Do#1) == 1
+//@ ensures [C09] result != nil ==> called(TrieDB.UnsubscribeAllLocked#1) == 0
+//@ ensures [C09] result == nil ==> called(TrieDB.UnsubscribeAllLocked#1) == 1
